@@ -611,10 +611,11 @@ func protoScenario() *explore.Scenario {
 	return &explore.Scenario{Name: "protobuf", C: -1, DataOnly: true, Body: func() {
 		var m cqrs.CommandEventMarshaler
 		which := vs.Choose(2, 0, "marshaler")
+		gen := generators[vs.Choose(len(generators), 0, "name generator")].fn
 		if which == 0 {
-			m = cqrs.ProtoMarshaler{}
+			m = cqrs.ProtoMarshaler{GenerateName: gen}
 		} else {
-			m = cqrs.ProtobufMarshaler{}
+			m = cqrs.ProtobufMarshaler{GenerateName: gen}
 		}
 		vals := []proto.Message{wrapperspb.String(""), wrapperspb.String("é\x00\""), wrapperspb.Int64(-5), wrapperspb.Bool(true)}
 		v := vals[vs.Choose(len(vals), 0, "value")]
